@@ -63,7 +63,7 @@ def run(ctx):
         "traces_validated_against_impl": cases,
         "evaluations": cases,
         "distinct_nontrivial": agg.get("DistinctNontrivial", 0),
-        "rule": "request sequences of 12-41 operations drawn from one PRNG (advance / identical repeat / timestamp-only repeat / conflicting content / height-round-step regression / answer lost after save / reload); distinct = distinct (ops,outs) texts; non-trivial = contains at least one same-HRS re-request and one regression",
+        "rule": "request sequences of 12-41 operations drawn from one PRNG (advance / identical repeat / timestamp-only repeat / conflicting content / height-round-step regression / answer lost after save / state file not writable during a request, then restart and a conflicting request / reload); distinct = distinct (ops,outs) texts; non-trivial = contains at least one same-HRS re-request and one regression",
         "distribution": agg,
         "samples": stats[0]["Samples"][:2],
         "exhaustive": False,
